@@ -1753,3 +1753,140 @@ def c19(ctx):
     cov["traces_validated_against_impl"] = len(verd)
     cov["model_divergences"] = 0        # for C19 every divergence of a selection is reported as a violation (none remained)
     return "model_checking", cov, ASSUME_COMMON + ["configurations are built with the repository's generators (gen-crypt-hashes-h, gen-crypt-h), not by re-running configure"]
+
+
+# ============================================================================= C08
+SPEC_STATICS = {"nr_crypt_ctx.0": "crypt()'s data object", "output.0": "crypt_gensalt()'s buffer", "nr_encrypt_ctx": "setkey()/encrypt() schedule",
+                "buf.0": "yescrypt() non-reentrant helper", "buf.1": "yescrypt_encode_params() non-reentrant helper", "digest.0": "non-reentrant yescrypt helper",
+                "hash_algorithms": "dispatch table (relocated read-only)", "test_hashes.2": "bcrypt self-test pointers (relocated read-only)",
+                "completed.0": "crt", "magic.0": "const pointer", "magic.1": "const pointer", "hexconvtab.0": "const pointer", "_crypt_verif_sink": "hook sink (TLS)"}
+REENTRANT = ["crypt_r", "crypt_rn", "crypt_ra", "crypt_gensalt_rn", "crypt_gensalt_ra", "crypt_checksalt", "crypt_preferred_method"]
+EVENT2FN = {"crypt_r": "crypt_r", "xcrypt_r": "crypt_r", "crypt_rn": "crypt_rn", "crypt_ra": "crypt_ra", "gensalt_rn": "crypt_gensalt_rn",
+            "gensalt_r": "crypt_gensalt_rn", "xgensalt_r": "crypt_gensalt_rn", "gensalt_ra": "crypt_gensalt_ra", "checksalt": "crypt_checksalt",
+            "crypt": "crypt", "fcrypt": "crypt", "xcrypt": "crypt", "gensalt": "crypt_gensalt", "xgensalt": "crypt_gensalt"}
+
+
+def mt_events(raw, pad):
+    """convert mt.c records into TraceXCrypt hash events"""
+    out = []
+    for e in raw:
+        if e["e"] in ("crypt_r", "crypt_rn", "crypt_ra"):
+            succ = (not e["null"]) and e["out"] and e["out"][0] != 42
+            ev = dict(pad)
+            ev.update({"e": "crypt_rn" if e["e"] == "crypt_ra" else e["e"], "mt": 1, "o": 200 + e["t"], "pl": len(e["a"]), "ph": bytes(e["a"]).hex(),
+                       "pnull": 0, "s": e["s"], "snull": 0, "errno": e["errno"], "ret": "out" if (succ or (e["e"] == "crypt_r" and not e["null"])) else "null",
+                       "out": e["out"] if not e["null"] else [42, 48], "outk": "str", "via": e["e"], "t": e["t"]})
+            out.append(ev)
+    return out
+
+
+@prop("C08")
+def c08(ctx):
+    quick = ctx.tier == "quick"
+    rng = ctx.rng
+    cfgev = config_event(ctx)
+    E = cfgev["E"]
+    b = ctx.build("hooks")
+    # (i) inventory of writable static storage of the fresh build against the specification's list
+    syms = [ln.split()[2] for ln in open(os.path.join(b, "syms.txt")) if ln.strip()]
+    unknown = [s for s in syms if s not in SPEC_STATICS]
+    imports = subprocess.run(["nm", "-D", "--undefined-only", os.path.join(b, "libxcv.so")], capture_output=True, text=True).stdout
+    sync = [x for x in re.findall(r"U (\w+)", imports) if x.startswith(("pthread_mutex", "pthread_rwlock", "pthread_once", "__cxa_guard", "call_once", "mtx_"))]
+    nonreentrant_libc = [x for x in re.findall(r"U (\w+)", imports) if x.split("@")[0] in ("strtok", "rand", "srand", "random", "getpwnam", "localtime", "gmtime", "asctime", "ctime", "strerror", "setlocale", "getenv", "crypt", "ttyname")]
+    # (ii) write footprints: every API call of every method with static storage snapshotted around it, and
+    #      (iii) every re-entrant call again with the library's writable segments mapped read-only
+    cmds = ["obj 0 0 0", "hset 0 0 0"]
+    lens = (3, 9, 65, 130) if quick else (0, 1, 8, 9, 20, 64, 65, 66, 128, 129, 200, 511)
+    for m in E:
+        for n in lens:
+            ph, s = gen.rand_phrase(rng, n), cheap_setting(m, rng)
+            for fnc in ("crypt_rn 0 %s %s 32768", "crypt_r 0 %s %s", "crypt_ra 0 %s %s", "crypt - %s %s"):
+                cmds.append(fnc % (hx(ph), hx(s)))
+        cmds.append("crypt_rn 0 %s %s 32768" % (hx(b"pw"), hx(METHFAIL.get(m) or "$9$")))
+        cmds.append("checksalt %s" % hx(cheap_setting(m, rng)))
+        for c in (0, 99):
+            cmds += [gs_cmd("gensalt_rn", gen.PREFIX[m], c, None), gs_cmd("gensalt_ra", gen.PREFIX[m], c, bytes(rng.randrange(256) for _ in range(24))),
+                     gs_cmd("gensalt", gen.PREFIX[m], c, None)]
+    cmds += ["preferred", "setkey - 0123456789abcdef 0", "encrypt - 0011223344556677 0 0"]
+    ev1 = ctx.run_xcv(cmds)
+    ev2 = ctx.run_xcv(["wprot 1"] + cmds)
+    measured = {f: set() for f in set(EVENT2FN.values())}
+    measured["crypt_preferred_method"] = set()
+    for e in ev1 + ev2:
+        f = EVENT2FN.get(e.get("e"))
+        if f:
+            measured[f] |= set(e.get("sw", []))
+    for e in ev2:
+        if e.get("e") == "Fault" and e.get("wprot"):
+            f = EVENT2FN.get(e.get("cmd", "").split(" ")[0], "crypt_r")
+            measured[f].add("written-under-write-protection")
+    fpfile = os.path.join(ctx.dir, "footprints.json")
+    json.dump({f: sorted(v) for f, v in measured.items()}, open(fpfile, "w"))
+    # the model with the measured footprints: all interleavings of the re-entrant interfaces
+    r1 = ctx.tlc("Threads.tla", "Threads_re.cfg", env={"XCV_FOOTPRINTS": fpfile}, workers=8, timeout=900)
+    if r1["violated"]:
+        if sync:
+            ctx.notes.append("the library imports synchronisation primitives %s: a static write is no longer by itself a race" % sync)
+        else:
+            ctx.violation("C08", "with the measured footprints the model has a data race / wrong result (%s)" % r1["violated"],
+                          {"footprints": {f: sorted(v) for f, v in measured.items() if v and f in REENTRANT}})
+    elif not r1["ok"]:
+        raise Broken("Threads.tla failed:\n" + r1["out"][-1500:])
+    # non-vacuity: the same model with the non-reentrant crypt()/crypt_gensalt() must exhibit the documented race
+    r2 = ctx.tlc("Threads.tla", "Threads_witness.cfg", env={"XCV_FOOTPRINTS": fpfile}, workers=4, timeout=300)
+    if not r2["violated"]:
+        raise Broken("witness configuration found no race: the model is not exploring interleavings")
+    v1 = judge(ctx, ev1 + [{"e": "Reset"}] + ev2, "fp", cfgev)
+    vg = judge_gs(ctx, [e for e in ev1 + ev2 if e.get("e") in vlib.GS], "fpgs", cfgev)
+    # (iv) real schedules: the requests once alone, then from N threads at once
+    reqs = []
+    for m in E:
+        for n in ((5, 70) if quick else (1, 9, 65, 70, 129)):
+            reqs.append((rng.choice(("crypt_r", "crypt_rn", "crypt_ra")), gen.rand_phrase(rng, n, eightbit=False), cheap_setting(m, rng)))
+    base = ctx.run_xcv(["obj 0 0 0"] + ["crypt_rn 0 %s %s 32768" % (hx(ph), hx(s)) for (_, ph, s) in reqs])
+    pad = next(dict(e) for e in base if e.get("e") == "crypt_rn")
+    for k in ("kprev", "hprev", "dprev", "bprev"):
+        pad.pop(k, None)
+    mtexe = ctx.build_tool("hooks", "mt.c", "mt")
+    script = "".join("%s %s %s\n" % (fn, ph.hex() or "=", s.encode("latin-1").hex() or "=") for (fn, ph, s) in reqs)
+    mtev = []
+    for nth in ((2, 8) if quick else (2, 4, 16)):
+        r = subprocess.run([mtexe, os.path.join(b, "libxcv.so"), str(nth), str(3 if quick else 12)], input=script.encode(), capture_output=True, timeout=1200)
+        if r.returncode != 0:
+            ctx.violation("C08", "the multi-threaded driver crashed (signal/exit %d)" % r.returncode, {"threads": nth, "stderr": r.stderr.decode(errors="replace")[-800:]})
+            continue
+        mtev += mt_events([json.loads(x) for x in r.stdout.decode().splitlines() if x.startswith("{")], pad)
+    v2 = judge(ctx, base + mtev, "mt", cfgev)
+    # (v) ThreadSanitizer build of the same driver
+    tsan_note = "not run"
+    try:
+        bt = ctx.build("tsan")
+        mtt = os.path.join(bt, "mt")
+        rr = subprocess.run(["gcc", "-O1", "-g", "-fsanitize=thread", "-o", mtt, os.path.join(vlib.VERIF, "harness", "mt.c"), "-ldl", "-lpthread"], capture_output=True, text=True)
+        if rr.returncode == 0:
+            r = subprocess.run([mtt, os.path.join(bt, "libxcv.so"), "4", "2"], input=script.encode(), capture_output=True, timeout=1200,
+                               env=dict(os.environ, TSAN_OPTIONS="halt_on_error=0 exitcode=66 report_signal_unsafe=0"))
+            rep = r.stderr.decode(errors="replace")
+            nrace = rep.count("WARNING: ThreadSanitizer: data race")
+            tsan_note = "%d data race reports" % nrace
+            if nrace:
+                inlib = [ln for ln in rep.splitlines() if "/repo/lib/" in ln or "libxcv.so" in ln][:6]
+                ctx.violation("C08", "ThreadSanitizer: data race inside the library under concurrent re-entrant calls", {"reports": nrace, "frames": inlib})
+        else:
+            tsan_note = "tsan harness did not build"
+    except vlib.BuildFailed:
+        tsan_note = "tsan flavour did not build"
+    attribute(ctx)
+    for (p, what, payload) in list(ctx.violations):
+        if p in ("C04",) and what.startswith("Confined") and payload.get("sw"):
+            ctx.violations.append(("C08", "a re-entrant function wrote static storage: " + what, payload))
+    cov = mc_coverage(ctx, r1.get("distinct", 1), r1.get("generated", 1), [v1, v2], ev1 + mtev[:3],
+                      {"writable_statics_in_build": syms, "statics_unknown_to_spec (divergence, snapshotted anyway)": unknown,
+                       "synchronisation_imports": sync, "non_reentrant_libc_imports": nonreentrant_libc,
+                       "measured_footprints": {f: sorted(v) for f, v in measured.items()},
+                       "calls_under_write_protection": sum(1 for e in ev2 if EVENT2FN.get(e.get("e")) in REENTRANT),
+                       "concurrent_calls_judged": len(mtev), "tsan": tsan_note, "witness_race_found": bool(r2["violated"]),
+                       "predicates": ["model NoRace/AsIfAlone over all interleavings with measured footprints", "no write to static storage under write protection",
+                                      "AsIfAlone on real schedules (learned function)", "TSan reports"]})
+    return "model_checking", cov, ["real schedules are sampled; the exhaustive part is on the model, whose only code-dependent input (footprints) is measured",
+                                   "non-interference: calls that write no shared location are equivalent to some sequential order"]
